@@ -6,7 +6,7 @@ from numba_scfg.core.datastructures.basic_block import RegionBlock, SyntheticBra
 from numba_scfg.core.datastructures.scfg import SCFG
 
 from vpbt import canon, gen_graphs as gg, graph_checks as G, models as M, sweep
-from vpbt.core import lib_frame
+from vpbt.core import lib_frame, library_raised
 
 PID = "C15"
 RULE = (
@@ -78,7 +78,9 @@ def _eval(col, intg, g, origin):
         try:
             if stage != "none":
                 M.apply_stage(scfg, stage)
-        except Exception:
+        except Exception as e:
+            if not library_raised(e):
+                raise
             col.count("not_evaluated_stage_raised")
             continue
         col.count("roundtrips")
@@ -97,7 +99,7 @@ def run(spec):
 
 
 def plan(tier, seed):
-    return sweep.plan(tier, seed, scale=0.5 if tier == "quick" else 0.4)
+    return sweep.plan(tier, seed, scale=0.25 if tier == "quick" else 0.3)
 
 
 def replay(inp):
@@ -106,7 +108,9 @@ def replay(inp):
     try:
         if inp.get("stage", "branch") != "none":
             M.apply_stage(scfg, inp.get("stage", "branch"))
-    except Exception:
+    except Exception as e:
+        if not library_raised(e):
+            raise
         return []
     try:
         roundtrip(g, scfg)
